@@ -183,9 +183,9 @@ func (t Time) Sub(input Quantity) (Time, error) {
 func roundToTimePrecision(p timePrecision, d time.Duration) time.Duration {
 	switch p {
 	case hour:
-		return d / time.Hour
+		return d / time.Hour * time.Hour
 	case minute:
-		return d / time.Minute
+		return d / time.Minute * time.Minute
 	default:
 		return d
 	}
